@@ -21,71 +21,71 @@ import (
 const BaseURL = "http://sim.local"
 
 type ReqPlan struct {
-	Tag        string     `json:"tag"`
+	Tag string `json:"tag"`
 	// ValueTag, when set, replaces Tag in the generated values: a "twin" request carries exactly the same
 	// parameter values (same raw query, same body) as another request of the run, which is what per-value
 	// caches need in order to be hit.
-	ValueTag   string     `json:"value_tag,omitempty"`
-	Kind       int        `json:"kind"` // 0 = typed call through the generated client, 1 = raw bytes on a connection
-	Op         int        `json:"op"`
-	ValueSeed  uint64     `json:"value_seed"`
-	Level      int        `json:"level"`
-	SetAll     bool       `json:"set_all,omitempty"`
-	NoEmpty    bool       `json:"no_empty,omitempty"`
-	RespIdx    int        `json:"resp_idx"`
-	RespSeed   uint64     `json:"resp_seed"`
-	DefaultCode int       `json:"default_code,omitempty"`
-	AuthReject bool       `json:"auth_reject,omitempty"`
-	Faults     sim.Faults `json:"faults"`
+	ValueTag    string     `json:"value_tag,omitempty"`
+	Kind        int        `json:"kind"` // 0 = typed call through the generated client, 1 = raw bytes on a connection
+	Op          int        `json:"op"`
+	ValueSeed   uint64     `json:"value_seed"`
+	Level       int        `json:"level"`
+	SetAll      bool       `json:"set_all,omitempty"`
+	NoEmpty     bool       `json:"no_empty,omitempty"`
+	RespIdx     int        `json:"resp_idx"`
+	RespSeed    uint64     `json:"resp_seed"`
+	DefaultCode int        `json:"default_code,omitempty"`
+	AuthReject  bool       `json:"auth_reject,omitempty"`
+	Faults      sim.Faults `json:"faults"`
 	// RespEmptyArrays: the planned response may carry empty/nil array-typed headers (not expressible on the wire,
 	// hence never used where the response is compared with what the client reconstructs).
-	RespEmptyArrays bool  `json:"resp_empty_arrays,omitempty"`
+	RespEmptyArrays bool `json:"resp_empty_arrays,omitempty"`
 	// NotJudged: the request only exists to disturb the others (its own outcome is not checked).
-	NotJudged  bool       `json:"not_judged,omitempty"`
+	NotJudged bool `json:"not_judged,omitempty"`
 	// InjectCred > 0: the transport adds the credential of the (InjectCred-1)-th security scheme of the spec to
 	// the outgoing request (users commonly add API keys in their HTTPClient); the generated client has no
 	// parameter for apiKey-in-query schemes, so this is the only way such a scheme ever authenticates.
-	InjectCred int        `json:"inject_cred,omitempty"`
+	InjectCred int `json:"inject_cred,omitempty"`
 	// Parent: this request is not sent by a caller task of its own; the harness handler of request Parent sends
 	// it in-process (LocalClient style) while it is itself being served, passing on its request context -
 	// the "handler fans out to another operation of the same API" pattern.
-	Parent     string     `json:"parent,omitempty"`
+	Parent string `json:"parent,omitempty"`
 	// Local: the request does not cross the simulated wire; the client's *http.Request is handed to
 	// API.ServeHTTP with an httptest.ResponseRecorder, exactly as the generated LocalClient() does.
-	Local      bool       `json:"local,omitempty"`
-	Raw        []byte     `json:"raw,omitempty"`
-	RawDesc    []string   `json:"raw_desc,omitempty"`
+	Local   bool     `json:"local,omitempty"`
+	Raw     []byte   `json:"raw,omitempty"`
+	RawDesc []string `json:"raw_desc,omitempty"`
 }
 
 type RunPlan struct {
-	Pkg         string    `json:"pkg"`
-	Strategy    int       `json:"strategy"`
-	SitePct     int       `json:"site_pct"`
-	Salt        uint64    `json:"salt"`
-	Middlewares int       `json:"middlewares"`
-	HashEvery   int       `json:"hash_every"`
-	NilAuth     bool      `json:"nil_auth,omitempty"` // leave the security hooks of the API nil (legal configuration)
-	NilCORS     bool      `json:"nil_cors,omitempty"` // leave API.CORSHandler nil
-	NilSpec     bool      `json:"nil_spec,omitempty"` // leave API.SpecFileHandler nil
-	CustomNotFound bool   `json:"custom_not_found,omitempty"` // install a NotFoundHandler
-	Reqs        []ReqPlan `json:"reqs"`
+	Pkg            string    `json:"pkg"`
+	Strategy       int       `json:"strategy"`
+	SitePct        int       `json:"site_pct"`
+	Salt           uint64    `json:"salt"`
+	Middlewares    int       `json:"middlewares"`
+	HashEvery      int       `json:"hash_every"`
+	NilAuth        bool      `json:"nil_auth,omitempty"`         // leave the security hooks of the API nil (legal configuration)
+	NilCORS        bool      `json:"nil_cors,omitempty"`         // leave API.CORSHandler nil
+	NilSpec        bool      `json:"nil_spec,omitempty"`         // leave API.SpecFileHandler nil
+	CustomNotFound bool      `json:"custom_not_found,omitempty"` // install a NotFoundHandler
+	Reqs           []ReqPlan `json:"reqs"`
 }
 
 type ReqObs struct {
-	Tag         string
-	Op          string
-	Sent        string
-	SentVal     reflect.Value
-	WireReq     []byte
-	Deliveries  []*sim.Delivery
-	ClientType  string
-	ClientRet   string
-	ClientErr   string
-	Planned     string
-	PlannedType string
-	PlannedCode int
-	CallerPanic string
-	RawResp     []byte
+	Tag          string
+	Op           string
+	Sent         string
+	SentVal      reflect.Value
+	WireReq      []byte
+	Deliveries   []*sim.Delivery
+	ClientType   string
+	ClientRet    string
+	ClientErr    string
+	Planned      string
+	PlannedType  string
+	PlannedCode  int
+	CallerPanic  string
+	RawResp      []byte
 	Intermediary int
 }
 
@@ -109,14 +109,14 @@ type tagKey struct{}
 type authKey struct{}
 
 type env struct {
-	p     *Pkg
-	plan  *RunPlan
-	s     *sim.Sched
-	obs   map[string]*ReqObs
-	plans map[string]*ReqPlan
-	api   reflect.Value // *API
-	cli   reflect.Value // *Client
-	res   *RunResult
+	p          *Pkg
+	plan       *RunPlan
+	s          *sim.Sched
+	obs        map[string]*ReqObs
+	plans      map[string]*ReqPlan
+	api        reflect.Value // *API
+	cli        reflect.Value // *Client
+	res        *RunResult
 	nestedDone map[string]bool
 }
 
@@ -124,7 +124,7 @@ type env struct {
 type Transport struct{ e *env }
 
 func (e *env) delivery() *sim.Delivery {
-	if t := e.s.Cur; t != nil {
+	for t := e.s.Cur; t != nil; t = t.Parent { // a goroutine started by generated code works for its parent's request
 		if d, ok := taskData[t].(*sim.Delivery); ok {
 			return d
 		}
@@ -625,6 +625,7 @@ func Exec(p *Pkg, plan *RunPlan, t *tape.Tape, logOn bool) *RunResult {
 	}
 	// shared-state discipline
 	trackShared := !p.UnsimSync
+	s.RealBlock = p.NoRace // goroutines / channel operations of its own
 	if trackShared && !p.NoRace {
 		s.EnableRace(func(site int) string { return siteDesc(p, site) })
 		s.Install() // again: the access hooks are only installed with the detector on
